@@ -2,42 +2,47 @@ package c09
 
 // Committed constants of the cost bound (never computed at run time):
 //
-//	alloc(decode) + alloc(re-encode) <= ka*n + kd*n*d + Ca        retained(decoded value) <= kr*n + Cr
+//	alloc(decode) + alloc(re-encode) <= ka*n + (kd/100)*n*d + Ca        retained(decoded value) <= kr*n + Cr
 //
 // n = input length, d = option nesting depth reported by the reference parser.
-// Per family {ka, kd, kr}: about 4x the worst ratio measured over the size ladder on the repaired tree
+// Per family {ka, kd (in hundredths of a copy per level), kr}: 4x the coefficients measured over the size ladder on the repaired tree:
+// for families whose depth grows with n, kd is read at the largest size and ka is what remains at any size
 // (go1.26.8, linux/amd64; measured with VERIF_PRINT=1, see DESIGN.md C09).  Inputs found by the hill-climb
 // are judged with the global constants, which are the maximum over all families.
 const (
 	Ca int64 = 16384
 	Cr int64 = 8192
 	Ka int64 = 33000
-	Kd int64 = 16
+	Kd int64 = 1600 // hundredths: 16 copies of the input per nesting level
 	Kr int64 = 600
 )
 
 var famBounds = map[string][3]int64{
-	"ptrfan-domainsearch":      {32847, 4, 548},
-	"ptrfan-ntp-fqdn":          {32849, 4, 548},
-	"ptrfan-fqdn":              {32855, 4, 548},
-	"ptrfan-overlong-name":     {123, 4, 16},
-	"unterminated-label-chain": {1030, 4, 16},
-	"many-short-names":         {267, 4, 49},
-	"relay-nesting":            {64, 6, 46},
-	"ia-nesting":               {64, 12, 111},
-	"iaaddr-nesting":           {64, 11, 50},
-	"4rd-nesting":              {64, 10, 199},
-	"minimal-options":          {64, 4, 16},
-	"oro-flood":                {103, 4, 20},
-	"userclass-items":          {323, 4, 72},
-	"vendorclass-items":        {229, 4, 55},
-	"bootfileparam-items":      {250, 4, 54},
-	"vendoropts-suboptions":    {202, 4, 71},
-	"ntp-suboptions":           {209, 4, 84},
-	"dns-addresses":            {114, 4, 26},
-	"dhcpv4-in-v6":             {78, 4, 17},
-	"v4-repeated-option":       {75, 4, 18},
-	"v4-repeated-max-option":   {98, 4, 24},
-	"v4-empty-options":         {218, 4, 53},
-	"v4-domainsearch-ptrfan":   {16304, 4, 551},
+	"ptrfan-domainsearch":      {32847, 0, 548},
+	"ptrfan-ntp-fqdn":          {32849, 0, 548},
+	"ptrfan-fqdn":              {32854, 0, 548},
+	"ptrfan-overlong-name":     {123, 0, 16},
+	"unterminated-label-chain": {1030, 0, 16},
+	"many-short-names":         {267, 0, 49},
+	"relay-nesting":            {101, 217, 46},
+	"ia-nesting":               {175, 648, 111},
+	"iaaddr-nesting":           {105, 648, 50},
+	"4rd-nesting":              {291, 217, 199},
+	"relay-nesting-broken":     {98, 2, 16},
+	"ia-nesting-broken":        {166, 217, 16},
+	"iaaddr-nesting-broken":    {92, 217, 16},
+	"4rd-nesting-broken":       {262, 2, 16},
+	"minimal-options":          {64, 0, 16},
+	"oro-flood":                {103, 0, 20},
+	"userclass-items":          {323, 0, 72},
+	"vendorclass-items":        {229, 0, 55},
+	"bootfileparam-items":      {250, 0, 54},
+	"vendoropts-suboptions":    {202, 0, 71},
+	"ntp-suboptions":           {209, 0, 84},
+	"dns-addresses":            {114, 0, 26},
+	"dhcpv4-in-v6":             {78, 0, 17},
+	"v4-repeated-option":       {75, 0, 18},
+	"v4-repeated-max-option":   {98, 0, 24},
+	"v4-empty-options":         {218, 0, 53},
+	"v4-domainsearch-ptrfan":   {16304, 0, 551},
 }
